@@ -85,7 +85,8 @@ type StoreSpec struct {
 //	merge   A=region pick (merged with its right neighbour if adjacent), C=0 no status | 1 inherits the left one's
 //	drop    A=region pick (leaves a gap)
 //	heal    A=0 first gap | 1 every gap is filled by a new region without status
-//	tick    A+1 ticks
+//	tick    A+1 ticks; P = number of GetReplicationStatus calls made from another goroutine each time the manager
+//	        is inside the file replication or the storage save of a transition (also for config)
 //	config  A=0 toggle mode | 1 toggle label key | 2 replicas B,C | 3 store timeout B | 4 async timeout B | 5 same config again
 //	failsave            the next storage write fails
 //	failrepl A=n        the next n file replications fail
@@ -101,6 +102,7 @@ type Op struct {
 	St   int    `json:"st,omitempty"`
 	ID   int    `json:"id,omitempty"`
 	Skip []int  `json:"skip,omitempty"`
+	P    int    `json:"p,omitempty"`
 }
 
 // Case is one generated history.
@@ -190,12 +192,15 @@ func genConfigOp(t *rapid.T) Op {
 	case 4:
 		op.B = rapid.IntRange(0, 2).Draw(t, "ato")
 	}
+	op.P = w(t, "probes", 40, 35, 15, 10)
 	return op
 }
 
 func genRestart(t *rapid.T) Op { return Op{K: "restart", A: w(t, "loadFault", 55, 45)} }
 
-func genTick(t *rapid.T) Op { return Op{K: "tick", A: w(t, "nticks", 80, 15, 5)} }
+func genTick(t *rapid.T) Op {
+	return Op{K: "tick", A: w(t, "nticks", 80, 15, 5), P: w(t, "probes", 45, 30, 15, 10)}
+}
 
 // flap phase: stores of a dc go down (and come back), ticks in between
 func genFlap(t *rapid.T, losing int) []Op {
@@ -600,11 +605,84 @@ type offer struct {
 	failed bool
 }
 
+// probeBatch is a group of GetReplicationStatus calls started on another goroutine while the manager
+// was inside a transition (file replication or storage save).
+type probeBatch struct {
+	offerIdx int    // 1-based index, within the op, of the transition that was in flight
+	where    string // offer | save
+	inflight bool   // the manager's lock was free: the calls returned while the transition was still in flight
+	n        int
+	ch       chan obs
+	got      []obs
+}
+
+// prober plays the stores that heartbeat while the manager changes state.
+type prober struct {
+	m        *replication.ModeManager // nil while a manager is being constructed
+	n        int                      // calls per gate for the current op
+	batches  []*probeBatch
+	timedOut bool
+}
+
+const probeWait = 10 * time.Second
+
+func (b *probeBatch) collect() bool {
+	for len(b.got) < b.n {
+		select {
+		case o := <-b.ch:
+			b.got = append(b.got, o)
+		case <-time.After(probeWait):
+			return false
+		}
+	}
+	return true
+}
+
+// at is called on the manager's goroutine from inside the replicater / the storage wrapper.
+func (p *prober) at(where string, offerIdx int) {
+	if p == nil || p.m == nil || p.n == 0 {
+		return
+	}
+	mgr, n := p.m, p.n
+	b := &probeBatch{offerIdx: offerIdx, where: where, n: n, ch: make(chan obs, n)}
+	go func() {
+		for i := 0; i < n; i++ {
+			b.ch <- toObs(mgr.GetReplicationStatus())
+		}
+	}()
+	// If the manager holds its lock over the transition (it does on the unchanged tree) the calls wait
+	// until the transition is over and are joined after the op. If the lock is free they cannot block:
+	// wait for them now, they are what a store is served while the transition is in flight.
+	if mgr.TryRLock() {
+		mgr.RUnlock()
+		b.inflight = true
+		if !b.collect() {
+			p.timedOut = true
+		}
+	}
+	p.batches = append(p.batches, b)
+}
+
+func (p *prober) begin(n int) { p.n, p.batches = n, nil }
+
+// join waits for the calls that had to wait for the manager's lock.
+func (p *prober) join() []*probeBatch {
+	for _, b := range p.batches {
+		if !b.collect() {
+			p.timedOut = true
+		}
+	}
+	out := p.batches
+	p.n, p.batches = 0, nil
+	return out
+}
+
 // recRepl records every file the manager hands to the members and can refuse it.
 type recRepl struct {
 	kv     *faultkv.KV
 	offers []offer
 	failN  int
+	pr     *prober
 }
 
 type persisted struct {
@@ -623,6 +701,7 @@ func (r *recRepl) ReplicateFileToAllMembers(_ context.Context, name string, data
 		err = errors.New("verif: injected file replication failure")
 	}
 	r.offers = append(r.offers, o)
+	r.pr.at("offer", len(r.offers))
 	return err
 }
 
@@ -634,6 +713,7 @@ type fixture struct {
 	ostg   *core.Storage // the oracle's view of the backend
 	base   kv.Base       // the backend itself (byte-level comparison of the persisted record)
 	rep    *recRepl
+	pr     *prober
 	m      *replication.ModeManager
 }
 
@@ -710,6 +790,31 @@ type obs struct {
 	state string
 	id    uint64
 	label string
+}
+
+func (o obs) String() string {
+	if !o.dr {
+		return "(majority)"
+	}
+	return fmt.Sprintf("(dr-auto-sync, label key %q, %s, id %d)", o.label, o.state, o.id)
+}
+
+// toObs reduces a served status to the tuple (mode, label key, state, state id).
+func toObs(s *pb.ReplicationStatus) obs {
+	if s.GetMode() != pb.ReplicationMode_DR_AUTO_SYNC {
+		return obs{}
+	}
+	d := s.GetDrAutoSync()
+	o := obs{dr: true, id: d.GetStateId(), label: d.GetLabelKey(), state: "?"}
+	switch d.GetState() {
+	case pb.DRAutoSyncState_SYNC:
+		o.state = "sync"
+	case pb.DRAutoSyncState_ASYNC:
+		o.state = "async"
+	case pb.DRAutoSyncState_SYNC_RECOVER:
+		o.state = "sync_recover"
+	}
+	return o
 }
 
 func (f *fixture) served() (obs, error) {
@@ -966,6 +1071,59 @@ func (r *runner) track(from, to status) {
 	}
 }
 
+// installed is the tuple the model says a store must be served right now.
+func (r *runner) installed() obs {
+	m := r.m
+	if !m.cfg.DR {
+		return obs{}
+	}
+	return obs{dr: true, label: keyNames[m.cfg.Key], state: m.cur.state, id: m.cur.id}
+}
+
+// checkReads judges every status that was returned to a concurrent reader during the op: it must be one of
+// the installed tuples - the one before the op or the one after a transition that completed successfully -
+// and a read that returned while transition k was still in flight can only see what was installed before k.
+func (r *runner) checkReads(desc string, before obs, atts []attempt, cfgAfter Cfg, batches []*probeBatch) error {
+	inst := []obs{before}
+	upto := []int{1} // upto[k] = number of tuples installed before the (k+1)-th transition of the op started
+	for _, a := range atts {
+		if a.saveTried && !a.saveFailed {
+			inst = append(inst, obs{dr: cfgAfter.DR, label: keyNames[cfgAfter.Key], state: a.state, id: a.id})
+		}
+		upto = append(upto, len(inst))
+	}
+	for _, b := range batches {
+		allowed := inst
+		if b.inflight {
+			r.class("reads-while-transition-in-flight")
+			k := b.offerIdx - 1
+			if k < 0 {
+				k = 0
+			}
+			if k < len(upto) {
+				allowed = inst[:upto[k]]
+			}
+		} else {
+			r.class("reads-waited-for-the-transition")
+		}
+		for _, o := range b.got {
+			ok := false
+			for _, x := range allowed {
+				ok = ok || o == x
+			}
+			if !ok {
+				when := "after waiting for the manager"
+				if b.inflight {
+					when = "while the transition was still in flight"
+				}
+				return fmt.Errorf("%s: a concurrent GetReplicationStatus (started during the %s of transition %d of this op) returned %v %s; installed (persisted and offered) were only %v",
+					desc, b.where, b.offerIdx, o, when, allowed)
+			}
+		}
+	}
+	return nil
+}
+
 // after compares what is served and stored with what the event history allows.
 func (r *runner) after(ctx opCtx) error {
 	m := r.m
@@ -1046,6 +1204,8 @@ func (r *runner) newManager(ctx opCtx, failLoads bool) error {
 	r.f.rep.offers = nil
 	before, _ := r.f.base.Load(drKey)
 	r.f.kv.FailLoads = failLoads
+	r.f.pr.m = nil // nobody can ask a manager that is still being constructed
+	r.f.pr.begin(0)
 	mgr, err := replication.NewReplicationModeManager(toConfig(r.m.cfg), r.f.stg, r.f.cl, r.f.rep)
 	r.f.kv.FailLoads = false
 	atts, cerr := r.collect()
@@ -1073,6 +1233,7 @@ func (r *runner) newManager(ctx opCtx, failLoads bool) error {
 		r.class("restart-read-fault-construction-succeeded")
 	}
 	r.f.m = mgr
+	r.f.pr.m = mgr
 	if err := r.judge(ctx, atts); err != nil {
 		return err
 	}
@@ -1097,7 +1258,14 @@ func runCase(c Case) (vkit.Info, error) {
 	f.stg = core.NewStorage(f.kv)
 	f.ostg = core.NewStorage(base)
 	f.base = base
-	f.rep = &recRepl{kv: f.kv}
+	f.pr = &prober{}
+	f.rep = &recRepl{kv: f.kv, pr: f.pr}
+	f.kv.SetGate(func(kind, key string) error {
+		if kind == "save" && key == drKey {
+			f.pr.at("save", len(f.rep.offers))
+		}
+		return nil
+	})
 
 	m := &model{cfg: c.Init, seen: map[uint64]bool{}, nextID: 1000}
 	r := &runner{f: f, m: m, info: &info, batch: c.Batch, classes: map[string]bool{}}
@@ -1324,7 +1492,14 @@ func runCase(c Case) (vkit.Info, error) {
 				toDR:         !m.cfg.DR && nc.DR}
 			f.kv.TakeLog()
 			f.rep.offers = nil
+			before := r.installed()
+			f.pr.begin(op.P)
 			uerr := f.m.UpdateConfig(toConfig(nc))
+			batches := f.pr.join()
+			if f.pr.timedOut {
+				info.Inconclusive = true
+				return info, nil
+			}
 			atts, err := r.collect()
 			if err != nil {
 				return info, fmt.Errorf("%s: %v", desc, err)
@@ -1336,6 +1511,9 @@ func runCase(c Case) (vkit.Info, error) {
 				}
 			}
 			if err := r.judge(cx, atts); err != nil {
+				return info, err
+			}
+			if err := r.checkReads(desc, before, atts, nc, batches); err != nil {
 				return info, err
 			}
 			if rejected != (uerr != nil) {
@@ -1373,12 +1551,22 @@ func runCase(c Case) (vkit.Info, error) {
 						r.class("tick-with-tombstone-store")
 					}
 				}
+				before := r.installed()
+				f.pr.begin(op.P)
 				f.m.VerifTickDR()
+				batches := f.pr.join()
+				if f.pr.timedOut {
+					info.Inconclusive = true
+					return info, nil
+				}
 				atts, err := r.collect()
 				if err != nil {
 					return info, fmt.Errorf("%s: %v", cx.desc, err)
 				}
 				if err := r.judge(cx, atts); err != nil {
+					return info, err
+				}
+				if err := r.checkReads(cx.desc, before, atts, m.cfg, batches); err != nil {
 					return info, err
 				}
 				if err := r.after(cx); err != nil {
